@@ -23,7 +23,7 @@ def run(c):
             if len(pick) >= 110:
                 break
         cfgs = pick
-    scen = [dict(g, sc=i) for i, g in enumerate(cfgs)]
+    scen = [dict(g, sc=i, after_error=(i % 2 == 1)) for i, g in enumerate(cfgs)]     # every second one after a signing attempt that failed in the signer
     env = dict(os.environ, VERIF_FIXTURES=os.path.join(vf.VERIF, "fixtures"))
     res, deaths = c.run_worker("p7sign", scen, env=env, timeout=1800)
     events, owner = [], []
